@@ -615,6 +615,76 @@ struct ExprGen {
                 return set_(d);
         }
     }
+    // ---- several non-real numbers in ONE object graph -------------------------------------------------
+    // Complex::real_part()/imaginary_part() and ComplexDouble's hand *temporary* Rational / RealDouble objects to
+    // the archive; so do Rational::get_num()/get_den().  Whether the archive keeps every temporary alive (so that
+    // no address is reused while dumps runs) only shows with two or more such numbers in one stream.
+    RCP<const Number> gauss_rational()
+    {
+        // a/b + (c/d) I with b, d >= 2 and gcd 1: both parts are Rational objects
+        static const long dens[] = {2, 3, 4, 5, 6, 7, 8, 9, 11, 13};
+        auto part = [&]() {
+            long d = dens[r.below(10)], n;
+            do
+                n = r.range(-40, 40);
+            while (n == 0 || std::abs(n) % d == 0 || (d % 2 == 0 && n % 2 == 0) || (d % 3 == 0 && n % 3 == 0));
+            return Rational::from_two_ints(n, d);
+        };
+        return Complex::from_two_nums(*part(), *part());
+    }
+    RCP<const Number> nonreal(unsigned kind)
+    {
+        if (kind == 0)
+            return gauss_rational();
+        if (kind == 1)
+            return complex_double(std::complex<double>(dbl(), dbl()));
+        return r.coin() ? gauss_rational() : rcp_static_cast<const Number>(complex_double(std::complex<double>(dbl(), dbl())));
+    }
+    // `kind`: 0 Gaussian rationals, 1 ComplexDoubles, 2 mixed; `shape` selects where the numbers sit
+    RCP<const Basic> multi_complex(unsigned kind, unsigned shape)
+    {
+        static const char *names[] = {"x", "y", "z", "t", "u", "v"};
+        int k = 2 + (int)r.below(4);
+        vec_basic nums;
+        for (int i = 0; i < k; i++)
+            nums.push_back(nonreal(kind));
+        switch (shape % 7) {
+            case 0: { // coefficients of a sum (and its constant term)
+                RCP<const Basic> e = nonreal(kind);
+                for (int i = 0; i < k; i++)
+                    e = add(e, mul(nums[i], symbol(names[i])));
+                return e;
+            }
+            case 1: { // exponents of a product, and its coefficient
+                RCP<const Basic> e = nonreal(kind);
+                for (int i = 0; i < k; i++)
+                    e = mul(e, pow(symbol(names[i]), nums[i]));
+                return e;
+            }
+            case 2: // function arguments
+                return function_symbol("g", nums);
+            case 3: { // set elements
+                set_basic sb(nums.begin(), nums.end());
+                return finiteset(sb);
+            }
+            case 4: { // nested: function of sums
+                vec_basic a;
+                for (int i = 0; i + 1 < k; i++)
+                    a.push_back(add(mul(nums[i], symbol(names[i])), nums[i + 1]));
+                return function_symbol("h", a);
+            }
+            case 5: // powers with non-real base and exponent, relational
+                return Eq(pow(add(symbol("x"), nums[0]), nums[1]), mul(nums[k - 1], symbol("y")));
+            default: { // plain Rationals next to each other (get_num/get_den temporaries)
+                vec_basic a;
+                for (int i = 0; i < k; i++)
+                    a.push_back(Rational::from_two_ints(*integer(2 * r.range(1, 30) + 1), *integer(2 << r.below(5))));
+                a.push_back(nums[0]);
+                return function_symbol("q", a);
+            }
+        }
+    }
+
     // The public API is called on random operands: a call that recurses without bound or does not return
     // (defects outside C19/C20) must not take the generator down.  SIGSEGV (on an alternate stack) and
     // SIGALRM abandon the expression under construction and the generator tries another one.
